@@ -13,7 +13,7 @@
       -> `err` | content number        TimeZone::local(env::var("TZ").ok()) without the fallbacks
   lc.zone <tz> <world…>              -> content number: current_zone (with the fallbacks)
   lc.off <entry> <tz> <d> <world…>   entry: ou|ol (offset_from_*_datetime) du|dl (offset_from_*_date, d =
-                                     midnight) fu|fl (from_*_datetime) now; d: the reading (seconds);
+                                     midnight) fu|fl (from_*_datetime) wt (DateTime<Utc>::with_timezone) now; d: the reading (seconds);
                                      extra world tokens  A<int>:u=<text>  A<int>:l=<text>  say what the zone
                                      with that content number answers for `d` in the UTC / local direction
       -> `<answer text>`             the entry point of `Api` run on a fresh thread under TZ = tz
@@ -41,15 +41,11 @@ def lookupL {β} (k : Bytes) : List (Bytes × β) → Option β
   | [] => none
   | (a, b) :: rest => if a = k then some b else lookupL k rest
 
-/-- an injective stand-in for `DefaultHasher` (base-257 digits) -/
-def hashInj (bs : Bytes) : Nat := bs.foldl (fun acc b => acc * 257 + b + 1) 0
-
 def Cfg.world (c : Cfg) : World :=
   { fs := fun p => (lookupL p c.fs).getD .absent
     rule := fun s => lookupL s c.rules
     sysName := c.sysName
-    ltMtime := c.mtime
-    hash := hashInj }
+    ltMtime := c.mtime }
 
 def spanEq : List Char → List Char × List Char
   | [] => ([], [])
@@ -137,6 +133,7 @@ def runEntry (c : Cfg) (entry : String) (e : EnvVal) (d : Int) : Option String :
   | "dl" => some (out (Api.offset_from_local_date L W c0 0 d))
   | "fu" => some (out2 (Api.from_utc_datetime L W c0 0 d))
   | "fl" => some (out2 (Api.from_local_datetime L W c0 0 d))
+  | "wt" => some (out2 (Api.with_timezone L W c0 0 d))
   | "now" => some (out2 (Api.now L W c0 0 d))
   | _ => none
 
